@@ -37,6 +37,10 @@ func main() {
 		err = runSM(opt)
 	case "c01":
 		err = runC01(opt)
+	case "conc":
+		err = runConc(opt)
+	case "actor":
+		err = runActor(opt)
 	case "hand":
 		err = runHand(opt)
 	case "life":
